@@ -30,6 +30,17 @@ pub struct PmTreeProof {
 
 pub type FrOf<H> = <H as Hasher>::Fr;
 
+#[cfg(zerokit_verif)]
+impl PmTreeProof {
+    /// Verification hook: builds a proof from (sibling, direction bit) pairs so that tampered
+    /// proofs can be handed to `PmTree::verify`.
+    pub fn verif_from_parts(parts: Vec<(Fr, u8)>) -> Self {
+        PmTreeProof {
+            proof: pmtree::tree::MerkleProof(parts),
+        }
+    }
+}
+
 // The pmtree Hasher trait used by pmtree Merkle tree
 impl Hasher for PoseidonHash {
     type Fr = Fr;
